@@ -770,6 +770,12 @@ fn spawn_response_loop(mut reader: BufReader<TcpStream>, inner: std::sync::Weak<
                     continue;
                 }
                 Err(err) => {
+                    // Close the socket through this thread's own handle first. A
+                    // writer parked on a peer that stopped reading holds the writer
+                    // mutex `fail_all_pending` needs; shutting the socket down makes
+                    // that write fail, so the calls in flight are failed now instead
+                    // of whenever the peer chooses to read again.
+                    let _ = reader.get_ref().shutdown(Shutdown::Both);
                     fail_all_pending(&inner, err);
                     break;
                 }
